@@ -1010,6 +1010,21 @@ impl<'a> WriteTxn<'a> {
         self.memtable.remove_edge_property(src, rel, dst, key);
     }
 
+    /// Relationships created by this transaction so far that start or end at `node`.
+    pub fn staged_edges_of(&self, node: InternalNodeId) -> Vec<crate::snapshot::EdgeKey> {
+        self.memtable.staged_edges_of(node)
+    }
+
+    /// True when this transaction deleted `node`.
+    pub fn is_node_deleted_in_txn(&self, node: InternalNodeId) -> bool {
+        self.memtable.is_node_deleted(node)
+    }
+
+    /// True when this transaction deleted `edge` (and did not re-create it afterwards).
+    pub fn is_edge_deleted_in_txn(&self, edge: crate::snapshot::EdgeKey) -> bool {
+        self.memtable.is_edge_deleted(edge)
+    }
+
     pub fn staged_created_nodes_with_labels(&self) -> Vec<(InternalNodeId, Vec<String>)> {
         let mut labels_by_node: BTreeMap<InternalNodeId, std::collections::BTreeSet<LabelId>> =
             BTreeMap::new();
